@@ -494,3 +494,92 @@ Theorem header_symbols_defined_layout d rt w u ext0 sym :
   let st' := layout (wo_script w) u ext0 in
   l_errors st' = [] -> In sym (linker_symbols w) -> exists v, lookup sym (l_syms st') = Some v.
 Proof. intros H st' He Hin. unfold st', layout in *. eapply header_symbols_defined; eassumption. Qed.
+
+(* ---------- partial linking: the main script and the per-segment scripts ---------- *)
+
+Lemma flat_add_single_segment rt st cfg classes seg ws s ws' :
+  add_single_segment rt st cfg classes seg ws = Ok (s, ws') -> script_flat s = true.
+Proof.
+  intro H. apply add_single_segment_inv in H. destruct H as [s1 [ws1 [s2 [E1 [E2 E]]]]]. subst s.
+  unfold script_flat. cbn [forallb flat_stmt]. rewrite andb_true_r. apply Forall_forallb. fa.
+  - apply ft_single_head.
+  - eapply ft_write_single_segment; eassumption.
+  - repeat constructor.
+  - eapply ft_write_single_segment; eassumption.
+  - repeat constructor.
+  - apply ft_end_sections.
+Qed.
+
+Lemma flat_version rt : script_flat (version_stmts rt) = true.
+Proof. unfold version_stmts. destruct (rt_emit_version_comment rt); reflexivity. Qed.
+
+Lemma script_flat_app a b : script_flat (a ++ b) = script_flat a && script_flat b.
+Proof. apply forallb_app. Qed.
+
+Definition sub_flat (sub : string * writer_out) : Prop := script_flat (wo_script (snd sub)) = true.
+
+Lemma ft_partial_segments d rt folder segs : forall ws subs s ws' subs',
+  partial_segments d rt folder segs (ws, subs) = Ok (s, (ws', subs')) ->
+  Forall ft s /\ (Forall sub_flat subs -> Forall sub_flat subs').
+Proof.
+  induction segs as [|seg r IH]; intros ws subs s ws' subs' H.
+  - apply ok_inj in H. inversion H; subst. split; [constructor|auto].
+  - apply partial_segments_cons in H. destruct H as [s1 [[ws1 subs1] [s2 [E1 [E2 E]]]]]. subst.
+    apply IH in E2. destruct E2 as [Hs2 Hsub2].
+    apply partial_segment_inv in E1.
+    destruct E1 as [[_ [E [Ew Es]]] | [_ [sub [wsub [Ea [Eb Es]]]]]]; subst.
+    + split; [exact Hs2 | exact Hsub2].
+    + split.
+      * apply Forall_app; split; [eapply ft_add_segment; eassumption | exact Hs2].
+      * intro Hsubs. apply Hsub2. apply Forall_app; split; [assumption|]. constructor; [|constructor].
+        unfold sub_flat. cbn [snd wo_script]. rewrite script_flat_app, flat_version.
+        eapply flat_add_single_segment; eassumption.
+Qed.
+
+(* the main script of a partial build is flat, and so is each per-segment script *)
+Theorem flat_gen_partial d rt p :
+  gen_partial d rt = Ok p ->
+  script_flat (wo_script (po_main p)) = true /\
+  Forall (fun sub => script_flat (wo_script (snd sub)) = true) (po_subs p).
+Proof.
+  intro H. apply gen_partial_inv in H. destruct H as [folder [body [ws [subs [Ef [E H]]]]]]. subst p.
+  apply ft_partial_segments in E. destruct E as [Hs Hsub]. cbn [po_main po_subs wo_script]. split.
+  - rewrite !script_flat_app, flat_version, flat_tail_stmts.
+    unfold script_flat. cbn [forallb flat_stmt]. rewrite !andb_true_r. apply Forall_forallb. fa.
+    + apply ft_begin.
+    + exact Hs.
+    + apply ft_end_sections.
+  - apply Hsub. constructor.
+Qed.
+
+(* the symbols header of a partial build is written from the main writer ([save_other_files_partial]
+   passes [po_main p] to [save_other_files_normal], hence to [header_text]): every name it declares is
+   defined by a final pass over the main script that ends without error *)
+Theorem header_symbols_defined_partial env senv ext d rt p st sym :
+  gen_partial d rt = Ok p ->
+  let st' := exec_script env senv ext true (wo_script (po_main p)) st in
+  l_errors st' = [] -> In sym (linker_symbols (po_main p)) -> exists v, lookup sym (l_syms st') = Some v.
+Proof.
+  intros H st' He Hin. apply (recorded_defined env senv ext (wo_script (po_main p)) st sym He).
+  rewrite <- exec_recorded_flat by (apply (flat_gen_partial d rt p H)).
+  apply linker_symbols_in. exact Hin.
+Qed.
+
+Theorem header_symbols_defined_partial_layout d rt p u ext0 sym :
+  gen_partial d rt = Ok p ->
+  let st' := layout (wo_script (po_main p)) u ext0 in
+  l_errors st' = [] -> In sym (linker_symbols (po_main p)) -> exists v, lookup sym (l_syms st') = Some v.
+Proof. intros H st' He Hin. unfold st', layout in *. eapply header_symbols_defined_partial; eassumption. Qed.
+
+(* the same for every per-segment script: the names it records (none with slinky's sub-script
+   configuration, see C11) are defined by a final pass over it that ends without error *)
+Theorem sub_symbols_defined_partial env senv ext d rt p name w st sym :
+  gen_partial d rt = Ok p -> In (name, w) (po_subs p) ->
+  let st' := exec_script env senv ext true (wo_script w) st in
+  l_errors st' = [] -> In sym (linker_symbols w) -> exists v, lookup sym (l_syms st') = Some v.
+Proof.
+  intros H Hw st' He Hin. apply (recorded_defined env senv ext (wo_script w) st sym He).
+  destruct (flat_gen_partial d rt p H) as [_ Hsubs]. rewrite Forall_forall in Hsubs.
+  rewrite <- exec_recorded_flat by (apply (Hsubs (name, w) Hw)).
+  apply linker_symbols_in. exact Hin.
+Qed.
